@@ -313,8 +313,10 @@ def run(ctx):
     kparam = sel.params[0] if sel.params else None
     szv = None
     for n in walk_local(sel.node):
-        if isinstance(n, ast.If) and isinstance(n.test, ast.Compare) and len(n.test.ops) == 1 and 'pack_size_target' in norm(n.test) and isinstance(n.test.left, ast.Name):
-            szv = n.test.left.id
+        if isinstance(n, ast.If) and isinstance(n.test, ast.Compare) and len(n.test.ops) == 1 and 'pack_size_target' in norm(n.test):
+            side = n.test.left if isinstance(n.test.left, ast.Name) else (n.test.comparators[0] if isinstance(n.test.comparators[0], ast.Name) else None)
+            if side is not None:
+                szv = side.id
     okks = False
     if kparam and szv:
         for n in walk_local(sel.node):
